@@ -231,6 +231,28 @@ func runC17(c *Ctx) {
 	for _, l := range good {
 		c17DecodeOracle(c, l)
 	}
+	// names spelled with escapes for ASCII characters (letters of either case, digits, punctuation):
+	// as values they are plain strings, as struct keys they go through the matchers' own escape decoding
+	for _, name := range []string{"A", "z", "Name", "URL", "aB", "x_y", "a<b", "K9", "Zz"} {
+		n := 1 << uint(len(name))
+		if n > 16 {
+			n = 16
+		}
+		for mask := 1; mask <= n; mask++ {
+			var sb strings.Builder
+			for i := 0; i < len(name); i++ {
+				switch {
+				case mask>>uint(i%4)&1 == 0:
+					sb.WriteByte(name[i])
+				case (mask+i)%2 == 0:
+					fmt.Fprintf(&sb, "\\u%04x", name[i])
+				default:
+					fmt.Fprintf(&sb, "\\u%04X", name[i])
+				}
+			}
+			c17DecodeOracle(c, sb.String())
+		}
+	}
 	// every position of short escape-bearing literals placed on the 512-byte refill boundary
 	nb := 0
 	for _, l := range good {
@@ -356,6 +378,29 @@ func c17EncodeOracle(c *Ctx, sb []byte) {
 	}
 }
 
+// c17TagSafe: the string can be the name in a `json:"..."` tag
+func c17TagSafe(s string) bool {
+	if len(s) == 0 || len(s) > 12 || s == "-" {
+		return false
+	}
+	for i := 0; i < len(s); i++ {
+		ch := s[i]
+		if !(ch >= 'a' && ch <= 'z' || ch >= 'A' && ch <= 'Z' || ch >= '0' && ch <= '9' || strings.IndexByte("_-./<>&+!#$%()*:;=?@[]^{|}~ ", ch) >= 0) {
+			return false
+		}
+	}
+	return true
+}
+
+// c17KeyStruct: a struct with nf fields, one of them named `name` in JSON
+func c17KeyStruct(name string, nf int) reflect.Type {
+	fields := []reflect.StructField{{Name: "K", Type: reflect.TypeOf(0), Tag: reflect.StructTag(`json:"` + name + `"`)}}
+	for i := 1; i < nf; i++ {
+		fields = append(fields, reflect.StructField{Name: fmt.Sprintf("W%02d", i), Type: reflect.TypeOf(0)})
+	}
+	return reflect.StructOf(fields)
+}
+
 func c17DecodeOracle(c *Ctx, body string) {
 	lit := `"` + body + `"`
 	var want string
@@ -456,6 +501,19 @@ func c17DecodeOracle(c *Ctx, body string) {
 				err = dec(lit, &u)
 				ok = err == nil && bytes.Equal(held.B, st.B)
 				c.Oracle("dec/ifacetext/"+mode, lit, fmt.Sprintf("%q err=%v", held.B, err), fmt.Sprintf("%q", st.B), ok, "")
+			}
+		}
+		if c17TagSafe(want) {
+			// the literal as the key of a struct member: the key matchers for up to 8, up to 16 and more
+			// than 16 field names decode escapes themselves
+			for _, nf := range []int{1, 10, 18} {
+				t := c17KeyStruct(want, nf)
+				g, sv := reflect.New(t), reflect.New(t)
+				doc := `{"W03":1,` + lit + `:7}`
+				err := dec(doc, g.Interface())
+				serr := stdjson.Unmarshal([]byte(doc), sv.Interface())
+				ok := (err == nil) == (serr == nil) && reflect.DeepEqual(g.Elem().Interface(), sv.Elem().Interface())
+				c.Oracle(fmt.Sprintf("dec/structkey%d/%s", nf, mode), doc, fmt.Sprintf("%+v err=%v", g.Elem().Interface(), err), fmt.Sprintf("%+v err=%v", sv.Elem().Interface(), serr), ok, "")
 			}
 		}
 		{
